@@ -1,11 +1,12 @@
 import MiniVecProof.Props.C03World
+import MiniVecProof.Props.C17DedupExact
 /-
-  C10 / C01 / C03 / C12 — VALUES on the register machine (PARTIAL: the 50 operation kinds `astepAll` answers for —
+  C10 / C01 / C03 / C12 — VALUES on the register machine (PARTIAL: the 57 operation kinds `astepAll` answers for —
   constructors incl. `deserialize`, single-vector operations, clone / clone_from / split_off / append, serialize,
   `deserialize_in_place`, leak, all four iterators (`Drain`, `Splice`, `DrainFilter`, `IntoIter`) with every iterator
   step, the provided `nth` / `nth_back` / `count` / `last` (defined from `next` and `drop` the way `core` defines them:
-  they return what the list iterator returns and never run out of fuel), `as_slice`, cloning an `IntoIter`; not
-  covered: dedup*, remove_item and compare (their answers depend on the scripted `PartialEq`), clone_from on an
+  they return what the list iterator returns and never run out of fuel), `as_slice`, cloning an `IntoIter`; `dedup_by` / `dedup_by_key` (Props/C17DedupExact: exactly `Vec::dedup_by`'s survivors); `dedup` / `remove_item` / `compare` (`==`, `partial_cmp`, `cmp`, equal hashes) with the element type's own `PartialEq`
+  (hypothesis `heq`: the equality script is empty — a misbehaving `PartialEq` is C17's subject); not covered: clone_from on an
   iterator, with_alignment, the raw and spare-capacity API): a refinement of the
   world of `Model/World.lean` (what the line-protocol driver runs against the real code) to an abstract world in which
   a register holds a plain list of values, or an iterator described by the values it still has to yield.
@@ -40,6 +41,7 @@ def AW.set (a : AW) (r : String) (o : AObj) : AW := fun r' => if r' = r then som
 
 inductive AOut
   | ok | none | some (v : Int) | hint (lo hi : Nat) | len (n : Nat) | vals (vs : List Int) | err | badOp
+  | cmp (eq : Bool) (ord : Ordering)
   deriving DecidableEq
 
 def optA : Option Int → AOut
@@ -81,6 +83,24 @@ def restOfV : Option (Int × List Int) → List Int
   | some (_, r) => r
   | none => []
 
+/-- the scripted comparison of `dedup_by` and of `dedup_by_key` (two key calls per comparison), on values -/
+def _root_.MV.PredTok.pred2V (p : PredTok) : Nat → Int → Int → Bool := fun k a b => p.pred2 k ⟨0, a⟩ ⟨0, b⟩
+def _root_.MV.KeyTok.sameV (kt : KeyTok) : Nat → Int → Int → Bool := fun k a b => kt.key (2 * k) ⟨0, a⟩ == kt.key (2 * k + 1) ⟨0, b⟩
+
+/-- `Vec::dedup_by` on values: an element is dropped iff the comparison says it equals the last KEPT one -/
+def dedupFromV (g : Nat → Int → Int → Bool) : Nat → Int → List Int → List Int
+  | _, _, [] => []
+  | k, last, v :: rest => if g k v last then dedupFromV g (k + 1) last rest else v :: dedupFromV g (k + 1) v rest
+
+def dedupAllV (g : Nat → Int → Int → Bool) : List Int → List Int
+  | [] => []
+  | x :: xs => x :: dedupFromV g 0 x xs
+
+/-- remove the first value equal to `x` -/
+def removeFirstV (x : Int) : List Int → Option Int × List Int
+  | [] => (none, [])
+  | v :: vs => if v == x then (some v, vs) else ((removeFirstV x vs).1, v :: (removeFirstV x vs).2)
+
 def astep (a : AW) : Op → Option (AW × AOut)
   | .new r | .default r | .macro_empty r | .with_capacity r _ => some (mkA a r [])
   | .from_slice r vals | .macro_list r vals => some (mkA a r vals)
@@ -96,6 +116,10 @@ def astep (a : AW) : Op → Option (AW × AOut)
       | some (st, en) => some (vs ++ (vs.take en).drop st, .ok)
       | none => none)
   | .retain r p => onVecA a r (fun vs => some (keptVals p 0 vs, .ok))
+  | .dedup r => onVecA a r (fun vs => some (dedupAllV (fun _ x y => x == y) vs, .ok))
+  | .remove_item r val => onVecA a r (fun vs => some ((removeFirstV val vs).2, optA (removeFirstV val vs).1))
+  | .dedup_by r p => onVecA a r (fun vs => some (dedupAllV p.pred2V vs, .ok))
+  | .dedup_by_key r k => onVecA a r (fun vs => some (dedupAllV k.sameV vs, .ok))
   | .serialize r => onVecA a r (fun vs => some (vs, .vals vs))
   | .views r => onVecA a r (fun vs => some (vs, .ok))
   | .leak r =>
@@ -106,6 +130,10 @@ def astep (a : AW) : Op → Option (AW × AOut)
     (match a it with
       | some (.intoIter win) => some (a, .vals win)
       | _ => some (a, .badOp))
+  | .compare r r2 =>
+    (match a r, a r2 with
+      | some (.vec xs), some (.vec ys) => some (a, .cmp (xs == ys) (cmpVals xs ys))
+      | _, _ => some (a, .badOp))
   | .clone_iter it itnew =>
     (match a itnew with
       | some _ => some (a, .badOp)
@@ -131,6 +159,17 @@ def astep (a : AW) : Op → Option (AW × AOut)
         (match a r with
           | some (.vec vs) => some ((a.set r (.vec vs)).set rnew (.vec vs), .ok)
           | _ => some (a, .badOp)))
+  | .drain_vec r rnew =>
+    (match a rnew with
+      | some _ => some (a, .badOp)
+      | none =>
+        (match a r with
+          | some (.vec vs) => some ((a.set r (.vec [])).set rnew (.vec vs), .ok)
+          | _ => some (a, .badOp)))
+  | .iter_views it =>
+    (match a it with
+      | some (.intoIter _) => some (a, .ok)
+      | _ => some (a, .badOp))
   | .split_off r at_ rnew =>
     (match a rnew with
       | some _ => some (a, .badOp)
@@ -273,6 +312,7 @@ def OutVal : Out → AOut → Prop
   | .hint lo hi, .hint l h => lo = l ∧ hi = some h
   | .nums ns, .len n => ns = [n]
   | .elems es, .vals vs => es.map (·.val) = vs
+  | .cmp eq pc c heq, .cmp e o => eq = e ∧ pc = some o ∧ c = o ∧ heq = e
   | .err, .err => True
   | .badOp, .badOp => True
   | _, _ => False
@@ -469,8 +509,138 @@ theorem rejFrom_vals (p : PredTok) : ∀ (k : Nat) (es : List Elem),
     · exact rejFrom_vals p (k + 1) es
     · simp [rejFrom_vals p (k + 1) es]
 
+theorem dedupFrom_vals (gE : Nat → Elem → Elem → Bool) (gV : Nat → Int → Int → Bool)
+    (h : ∀ k a b, gE k a b = gV k a.val b.val) : ∀ (k : Nat) (last : Elem) (es : List Elem),
+    (dedupFrom gE k last es).map (·.val) = dedupFromV gV k last.val (es.map (·.val))
+  | _, _, [] => rfl
+  | k, last, e :: es => by
+    simp only [dedupFrom, List.map_cons, dedupFromV, h]
+    split
+    · exact dedupFrom_vals gE gV h (k + 1) last es
+    · simp [dedupFrom_vals gE gV h (k + 1) e es]
+
+theorem dedupAll_vals (gE : Nat → Elem → Elem → Bool) (gV : Nat → Int → Int → Bool)
+    (h : ∀ k a b, gE k a b = gV k a.val b.val) (es : List Elem) :
+    (dedupAll gE es).map (·.val) = dedupAllV gV (es.map (·.val)) := by
+  cases es with
+  | nil => rfl
+  | cons x xs => simp [dedupAll, dedupAllV, dedupFrom_vals gE gV h 0 x xs]
+
+theorem removeFirst_vals (x : Int) : ∀ es : List Elem,
+    (removeFirst (fun e => e.val == x) es).1.map (·.val) = (removeFirstV x (es.map (·.val))).1 ∧
+    (removeFirst (fun e => e.val == x) es).2.map (·.val) = (removeFirstV x (es.map (·.val))).2
+  | [] => ⟨rfl, rfl⟩
+  | e :: es => by
+    obtain ⟨h1, h2⟩ := removeFirst_vals x es
+    simp only [removeFirst, List.map_cons, removeFirstV]
+    split
+    · exact ⟨rfl, rfl⟩
+    · exact ⟨h1, by simp [h2]⟩
+
+theorem pred2_val (p : PredTok) (k : Nat) (a b : Elem) : p.pred2 k a b = p.pred2V k a.val b.val := by
+  cases p <;> rfl
+
+theorem key_val (kt : KeyTok) (k : Nat) (a b : Elem) :
+    (kt.key (2 * k) a == kt.key (2 * k + 1) b) = kt.sameV k a.val b.val := by
+  cases kt <;> rfl
+
 theorem optOut_val (o : Option Elem) : OutVal (optOut o) (optA (o.map (·.val))) := by
   cases o <;> simp [optOut, optA, OutVal]
+
+/-- a computation that returns exactly `a` and leaves the focused vector alone -/
+def VRet {α} (x : VM α) (a : α) : Prop := ∀ s, ∃ s', x s = (.ok a, s') ∧ s'.v = s.v
+
+theorem VRet.pure' {α} (a : α) : VRet (pure a : VM α) a := fun s => ⟨s, rfl, rfl⟩
+
+theorem VRet.bind' {α β} {x : VM α} {f : α → VM β} {a : α} {b : β} (hx : VRet x a) (hf : VRet (f a) b) : VRet (x >>= f) b := by
+  intro s
+  obtain ⟨s1, h1, hv1⟩ := hx s
+  obtain ⟨s2, h2, hv2⟩ := hf s1
+  exact ⟨s2, by simp only [VM.bind_run, h1, h2], hv2.trans hv1⟩
+
+theorem VRet.ofPure {x : VM Unit} (h : VPure x) : VRet x () := by
+  intro s
+  obtain ⟨a, s', hr, hv⟩ := h s
+  exact ⟨s', hr, hv⟩
+
+theorem eqSlices_ret (X : Ctx) (hq : ∀ k, X.o.panicAt k = false) (heq : ∀ k, X.o.eqScript k = none) :
+    ∀ (as bs : List Elem), VRet (Vec.eqSlices X as bs) (as.map (·.val) == bs.map (·.val)) := by
+  intro as
+  induction as with
+  | nil => intro bs; cases bs <;> (unfold Vec.eqSlices; exact VRet.pure' _)
+  | cons x xs ih =>
+    intro bs
+    cases bs with
+    | nil => unfold Vec.eqSlices; exact VRet.pure' _
+    | cons y ys =>
+      unfold Vec.eqSlices
+      have he : VRet (Vec.eqElem X x y) (x.val == y.val) := by
+        intro s
+        obtain ⟨s', h1, h2, _⟩ := eqElem_lawful X hq heq x y s
+        exact ⟨s', h1, h2⟩
+      cases hxy : (x.val == y.val) with
+      | true =>
+        rw [hxy] at he
+        have : ((x :: xs).map (·.val) == (y :: ys).map (·.val)) = (xs.map (·.val) == ys.map (·.val)) := by
+          simp only [List.map_cons, List.cons_beq_cons, hxy, Bool.true_and]
+        rw [this]
+        exact VRet.bind' he (by simpa using ih ys)
+      | false =>
+        rw [hxy] at he
+        have : ((x :: xs).map (·.val) == (y :: ys).map (·.val)) = false := by
+          simp only [List.map_cons, List.cons_beq_cons, hxy, Bool.false_and]
+        rw [this]
+        exact VRet.bind' he (by simpa using VRet.pure' false)
+
+theorem cmpSlices_ret (X : Ctx) (hq : ∀ k, X.o.panicAt k = false) :
+    ∀ (as bs : List Elem), VRet (Vec.cmpSlices X as bs) (cmpVals (as.map (·.val)) (bs.map (·.val))) := by
+  intro as
+  induction as with
+  | nil => intro bs; cases bs <;> (unfold Vec.cmpSlices; exact VRet.pure' _)
+  | cons x xs ih =>
+    intro bs
+    cases bs with
+    | nil => unfold Vec.cmpSlices; exact VRet.pure' _
+    | cons y ys =>
+      unfold Vec.cmpSlices
+      refine VRet.bind' (VRet.ofPure (vpure_callback X hq)) ?_
+      simp only [List.map_cons, cmpVals]
+      split
+      · exact VRet.pure' _
+      · split
+        · exact VRet.pure' _
+        · exact ih ys
+
+theorem compareSlices_ret (X : Ctx) (hq : ∀ k, X.o.panicAt k = false) (heq : ∀ k, X.o.eqScript k = none) (a b : List Elem) :
+    VRet (Vec.compareSlices X a b)
+      (a.map (·.val) == b.map (·.val), cmpVals (a.map (·.val)) (b.map (·.val)), cmpVals (a.map (·.val)) (b.map (·.val)),
+       a.map (·.val) == b.map (·.val)) := by
+  have hrest : ∀ eq : Bool, VRet (do
+      let pc ← Vec.cmpSlices X a b
+      let c ← Vec.cmpSlices X a b
+      VM.forN a.length (fun _ => VM.callback X)
+      VM.forN b.length (fun _ => VM.callback X)
+      pure (eq, pc, c, a.map (·.val) == b.map (·.val)) : VM (Bool × Ordering × Ordering × Bool))
+      (eq, cmpVals (a.map (·.val)) (b.map (·.val)), cmpVals (a.map (·.val)) (b.map (·.val)), a.map (·.val) == b.map (·.val)) := fun eq =>
+    VRet.bind' (cmpSlices_ret X hq a b) (VRet.bind' (cmpSlices_ret X hq a b)
+      (VRet.bind' (VRet.ofPure (vpure_forN _ (fun _ => vpure_callback X hq) _))
+        (VRet.bind' (VRet.ofPure (vpure_forN _ (fun _ => vpure_callback X hq) _)) (VRet.pure' _))))
+  unfold Vec.compareSlices
+  dsimp only
+  split
+  · exact VRet.bind' (eqSlices_ret X hq heq a b) (hrest _)
+  · rename_i hne
+    have : (a.map (·.val) == b.map (·.val)) = false := by
+      cases h : (a.map (·.val) == b.map (·.val)) with
+      | false => rfl
+      | true =>
+        have := congrArg List.length (by simpa using h : a.map (·.val) = b.map (·.val))
+        simp at this; exact absurd this hne
+    intro s
+    obtain ⟨s', hr, hv⟩ := hrest false s
+    refine ⟨s', ?_, hv⟩
+    simp only [VM.bind_run, VM.pure_run, this] at hr ⊢
+    exact hr
 
 section steps
 variable (X : Ctx) (hq : ∀ k, X.o.panicAt k = false) (hz : 0 < X.c.elemSize)
@@ -795,6 +965,9 @@ theorem size_hint_val_ok (w : World) (a a' : AW) (it : String) (ao : AOut) (hrel
       · rw [← hr', List.length_map]; have := hinv.ps; have := hinv.ol; congr 1; omega
       · simp [ho, hp]
     | _ => simp at hs
+
+variable (heq : ∀ k, X.o.eqScript k = none)
+include heq
 
 /-- **one step, with the values**: whatever the abstract specification answers for the operation, the model answers
     too, and the worlds are related again -/
@@ -1556,6 +1729,144 @@ theorem C10_world_step_values (w : World) (a a' : AW) (op : Op) (ao : AOut) (hre
           cases ao1 <;> simp only [RegVal] at hv
           exact hit ⟨_, hai⟩
       · exact .inl ⟨trivial, hrel⟩
+  case dedup r =>
+    unfold step; simp only [astep] at hs
+    refine onVecA_val X w a a' r _ hrel _ ao hs ?_
+    intro vs vs' ao' hg
+    simp only [Option.some.injEq, Prod.mk.injEq] at hg; obtain ⟨rfl, rfl⟩ := hg
+    refine HX.unit X _ _ _ (fun s es habs hv => ?_)
+    obtain ⟨s', hrun, ha⟩ := C17_dedup_lawful X hq heq s es habs
+    exact .inl ⟨s', _, hrun, ha, by rw [← hv]; exact dedupAll_vals _ _ (fun _ _ _ => rfl) es⟩
+  case remove_item r val =>
+    unfold step; simp only [astep] at hs
+    refine onVecA_val X w a a' r _ hrel _ ao hs ?_
+    intro vs vs' ao' hg
+    simp only [Option.some.injEq, Prod.mk.injEq] at hg; obtain ⟨rfl, rfl⟩ := hg
+    refine HX.mk X val _ _ _ _ (fun e he => ?_)
+    intro s es habs hv
+    obtain ⟨s', hrun, ha⟩ := C17_remove_item_lawful X hq heq e s es habs
+    obtain ⟨h1, h2⟩ := removeFirst_vals val es
+    rw [he] at hrun ha
+    refine .inl ⟨_, s', _, by simp only [VM.bind_run, hrun]; rfl, ha, by rw [h2, hv], ?_⟩
+    rw [← hv, ← h1]
+    exact optOut_val _
+  case dedup_by r p =>
+    unfold step; simp only [astep] at hs
+    refine onVecA_val X w a a' r _ hrel _ ao hs ?_
+    intro vs vs' ao' hg
+    simp only [Option.some.injEq, Prod.mk.injEq] at hg; obtain ⟨rfl, rfl⟩ := hg
+    refine HX.unit X _ _ _ (fun s es habs hv => ?_)
+    obtain ⟨s', hrun, ha⟩ := (C17_dedup_by_exact X hq s es habs).1 p.pred2
+    exact .inl ⟨s', _, hrun, ha, by rw [← hv]; exact dedupAll_vals _ _ (pred2_val p) es⟩
+  case dedup_by_key r k =>
+    unfold step; simp only [astep] at hs
+    refine onVecA_val X w a a' r _ hrel _ ao hs ?_
+    intro vs vs' ao' hg
+    simp only [Option.some.injEq, Prod.mk.injEq] at hg; obtain ⟨rfl, rfl⟩ := hg
+    refine HX.unit X _ _ _ (fun s es habs hv => ?_)
+    obtain ⟨s', hrun, ha⟩ := (C17_dedup_by_exact X hq s es habs).2 k.key
+    exact .inl ⟨s', _, hrun, ha, by rw [← hv]; exact dedupAll_vals _ _ (key_val k) es⟩
+  case compare r r2 =>
+    unfold step; dsimp only; simp only [astep] at hs
+    by_cases hvec : ∃ xs ys, a r = some (.vec xs) ∧ a r2 = some (.vec ys)
+    · obtain ⟨xs, ys, har, har2⟩ := hvec
+      rw [har, har2] at hs
+      simp only [Option.some.injEq, Prod.mk.injEq] at hs; obtain ⟨rfl, rfl⟩ := hs
+      obtain ⟨v, es, hg, habs, hvals⟩ := hrel.vec_of r xs har
+      obtain ⟨v2, es2, hg2, habs2, hvals2⟩ := hrel.vec_of r2 ys har2
+      have hca := contents_run X { sys := w.sys, v := v } es habs
+      have hcb := contents_run X { sys := w.sys, v := v2 } es2 habs2
+      have hcb' : VM.onVec v2 (Vec.contents X) { sys := w.sys, v := v } = (.ok (es2, v2), { sys := w.sys, v := v }) :=
+        onVec_read v2 _ { sys := w.sys, v := v } _ hcb
+      obtain ⟨s', hr, _⟩ := compareSlices_ret X hq heq es es2 { sys := w.sys, v := v }
+      simp only [hg, hg2, runOn, VM.bind_run, hca, hcb', hr]
+      rw [hvals, hvals2]
+      exact .inl ⟨⟨rfl, rfl, rfl, rfl⟩, hrel.sys _⟩
+    · have hbad : a = a' ∧ AOut.badOp = ao := by
+        revert hs
+        split
+        · rename_i xs ys h1 h2; exact absurd ⟨xs, ys, h1, h2⟩ hvec
+        · intro hs; simpa using hs
+      obtain ⟨rfl, rfl⟩ := hbad
+      split
+      · rename_i v o h1 h2
+        exfalso
+        obtain ⟨ao1, hao1⟩ : ∃ x, a r = some x := by
+          cases h : a r with
+          | none => have := (hrel.1 r).mpr h; rw [h1] at this; cases this
+          | some x => exact ⟨x, rfl⟩
+        obtain ⟨ao2, hao2⟩ : ∃ x, a r2 = some x := by
+          cases h : a r2 with
+          | none => have := (hrel.1 r2).mpr h; rw [h2] at this; cases this
+          | some x => exact ⟨x, rfl⟩
+        have hv1 := hrel.2 r _ _ h1 hao1
+        have hv2 := hrel.2 r2 _ _ h2 hao2
+        cases ao1 <;> simp only [RegVal] at hv1
+        cases ao2 <;> simp only [RegVal] at hv2
+        exact hvec ⟨_, _, hao1, hao2⟩
+      · exact .inl ⟨trivial, hrel⟩
+  case drain_vec r rnew =>
+    unfold step; dsimp only; simp only [astep] at hs
+    cases hai : a rnew with
+    | some o =>
+      rw [hai] at hs; simp only [Option.some.injEq, Prod.mk.injEq] at hs; obtain ⟨rfl, rfl⟩ := hs
+      have hf : w.fresh rnew = false := by
+        cases hf : w.fresh rnew with
+        | false => rfl
+        | true => have := (hrel.fresh rnew).mp hf; rw [hai] at this; cases this
+      simp only [hf, Bool.not_false, if_true]; exact .inl ⟨trivial, hrel⟩
+    | none =>
+      rw [hai] at hs; simp only at hs
+      have hf : w.fresh rnew = true := (hrel.fresh rnew).mpr hai
+      simp only [hf, Bool.not_true, Bool.false_eq_true, if_false]
+      by_cases hvec : ∃ vs, a r = some (.vec vs)
+      · obtain ⟨vs, har⟩ := hvec
+        rw [har] at hs
+        simp only [Option.some.injEq, Prod.mk.injEq] at hs; obtain ⟨rfl, rfl⟩ := hs
+        obtain ⟨v, es, hg, habs, hvals⟩ := hrel.vec_of r vs har
+        simp only [hg, runOn, C01_drain_vec X hz { sys := w.sys, v := v }]
+        exact .inl ⟨trivial, ((hrel.sys _).set r (Obj.vec {}) (.vec []) ⟨[], Abs.sentinel_abs X hz, rfl⟩).set rnew (Obj.vec v) (.vec vs) ⟨es, habs, hvals⟩⟩
+      · have hn := hrel.not_vec r (fun vs h => hvec ⟨vs, h⟩)
+        have hbad : a = a' ∧ AOut.badOp = ao := by
+          cases har : a r with
+          | none => rw [har] at hs; simpa using hs
+          | some o =>
+            rw [har] at hs
+            cases o with
+            | vec vs => exact absurd ⟨vs, har⟩ hvec
+            | _ => simpa using hs
+        obtain ⟨rfl, rfl⟩ := hbad
+        split
+        · rename_i v heq; exact absurd heq (hn v)
+        · exact .inl ⟨trivial, hrel⟩
+  case iter_views it =>
+    unfold step; dsimp only; simp only [astep] at hs
+    by_cases hit : ∃ win, a it = some (.intoIter win)
+    · obtain ⟨win, hai⟩ := hit
+      rw [hai] at hs
+      simp only [Option.some.injEq, Prod.mk.injEq] at hs; obtain ⟨rfl, rfl⟩ := hs
+      obtain ⟨v, i, hg, _⟩ := hrel.into_of it win hai
+      simp only [hg]
+      exact .inl ⟨trivial, hrel⟩
+    · have hbad : a = a' ∧ AOut.badOp = ao := by
+        cases hai : a it with
+        | none => rw [hai] at hs; simpa using hs
+        | some o =>
+          rw [hai] at hs
+          cases o with
+          | intoIter win => exact absurd ⟨win, hai⟩ hit
+          | _ => simpa using hs
+      obtain ⟨rfl, rfl⟩ := hbad
+      split
+      · rename_i v i heq
+        exfalso
+        cases hai : a it with
+        | none => have := (hrel.1 it).mpr hai; rw [heq] at this; cases this
+        | some ao1 =>
+          have hv := hrel.2 it _ _ heq hai
+          cases ao1 <;> simp only [RegVal] at hv
+          exact hit ⟨_, hai⟩
+      · exact .inl ⟨trivial, hrel⟩
   case clone_iter it itnew =>
     unfold step; dsimp only; simp only [astep] at hs
     cases hai : a itnew with
@@ -1987,10 +2298,10 @@ def astepAll (a : AW) : Op → Option (AW × AOut)
   | op => astep a op
 
 section stepsAll
-variable (X : Ctx) (hq : ∀ k, X.o.panicAt k = false) (hz : 0 < X.c.elemSize)
-include hq hz
+variable (X : Ctx) (hq : ∀ k, X.o.panicAt k = false) (hz : 0 < X.c.elemSize) (heq : ∀ k, X.o.eqScript k = none)
+include hq hz heq
 
-omit hz in
+omit hz heq in
 theorem dropIn_quiet (w : World) (e : Elem) : (dropIn X w e).2 = none := by
   unfold dropIn
   simp only [runOn, dropElem_quiet' X hq e]
@@ -1999,7 +2310,7 @@ theorem nthLoop_val (nx : Op) : ∀ (k : Nat) (w : World) (a a' : AW) (ao : AOut
     anthLoop nx k a = some (a', ao) → StepVal X (nthLoop X nx k w) a a' ao := by
   intro k
   induction k with
-  | zero => intro w a a' ao hrel hs; exact C10_world_step_values X hq hz w a a' nx ao hrel hs
+  | zero => intro w a a' ao hrel hs; exact C10_world_step_values X hq hz heq w a a' nx ao hrel hs
   | succ k ih =>
     intro w a a' ao hrel hs
     simp only [anthLoop] at hs
@@ -2008,7 +2319,7 @@ theorem nthLoop_val (nx : Op) : ∀ (k : Nat) (w : World) (a a' : AW) (ao : AOut
     | some q =>
       obtain ⟨a1, ao1⟩ := q
       rw [hst] at hs
-      have h1 := C10_world_step_values X hq hz w a a1 nx ao1 hrel hst
+      have h1 := C10_world_step_values X hq hz heq w a a1 nx ao1 hrel hst
       unfold nthLoop
       rcases h1 with ⟨ho, hrel1⟩ | ⟨p, hp, hb, a'', hrel''⟩
       · cases hres : step X w nx with
@@ -2041,7 +2352,7 @@ theorem nthLoop_val (nx : Op) : ∀ (k : Nat) (w : World) (a a' : AW) (ao : AOut
           subst hp
           exact .inr ⟨p, rfl, hb, a'', hrel''⟩
 
-omit hq hz in
+omit hq hz heq in
 theorem anext_exists (a : AW) (it : String) (o : AObj) (ys : List Int) (hai : a it = some o)
     (hrem : o.remaining = some ys) :
     (∃ a1 ao1, astep a (.next it) = some (a1, ao1)) ∧ (∃ lo, astep a (.size_hint it) = some (a, .hint lo o.meas)) := by
@@ -2071,7 +2382,7 @@ theorem countLoop_val (it : String) : ∀ (fuel acc : Nat) (w : World) (a a' : A
         subst hao
         cases out <;> simp only [OutVal] at ho
         simp only
-        rcases C10_world_step_values X hq hz w' a1 a' (.drop it) .ok hrel1 hd1 with ⟨ho2, hrel2⟩ | ⟨p, hp, hb, a'', hrel''⟩
+        rcases C10_world_step_values X hq hz heq w' a1 a' (.drop it) .ok hrel1 hd1 with ⟨ho2, hrel2⟩ | ⟨p, hp, hb, a'', hrel''⟩
         · cases hres2 : step X w' (.drop it) with
           | mk w2 out2 =>
             rw [hres2] at ho2 hrel2
@@ -2129,7 +2440,7 @@ theorem lastLoop_val (it : String) : ∀ (fuel : Nat) (prev : Option Elem) (w : 
         subst hao
         cases out <;> simp only [OutVal] at ho
         simp only [List.getLast?_nil]
-        rcases C10_world_step_values X hq hz w' a1 a' (.drop it) .ok hrel1 hd1 with ⟨ho2, hrel2⟩ | ⟨p, hp, hb, a'', hrel''⟩
+        rcases C10_world_step_values X hq hz heq w' a1 a' (.drop it) .ok hrel1 hd1 with ⟨ho2, hrel2⟩ | ⟨p, hp, hb, a'', hrel''⟩
         · cases hres2 : step X w' (.drop it) with
           | mk w2 out2 =>
             rw [hres2] at ho2 hrel2
@@ -2176,6 +2487,7 @@ theorem lastLoop_val (it : String) : ∀ (fuel : Nat) (prev : Option Elem) (w : 
               simp only
               exact ih (some e) w'' a1 a' o1 ys' hdw hai1 (by simpa using hrem1) hm1 hd1
 
+omit heq in
 /-- `count` / `last` as the driver runs them -/
 theorem consume_val (w : World) (a a' : AW) (it : String) (ao : AOut) (f : List Int → AOut) (hrel : Rel X w a)
     (loop : Nat → World × Out)
@@ -2236,7 +2548,7 @@ theorem C10_world_stepAll_values (w : World) (a a' : AW) (op : Op) (ao : AOut) (
     · simp only [hk, if_true, Option.some.injEq, Prod.mk.injEq] at hs ⊢; obtain ⟨rfl, rfl⟩ := hs
       exact .inl ⟨trivial, hrel⟩
     · simp only [hk, if_false] at hs ⊢
-      exact nthLoop_val X hq hz (.next it) k w a a' ao hrel hs
+      exact nthLoop_val X hq hz heq (.next it) k w a a' ao hrel hs
   case nth_back it k =>
     simp only [astepAll] at hs
     simp only [stepAll]
@@ -2265,23 +2577,23 @@ theorem C10_world_stepAll_values (w : World) (a a' : AW) (op : Op) (ao : AOut) (
             have hv := hrel.2 it _ _ heq hai
             cases ao1 <;> simp only [RegVal] at hv
             exact hdf ⟨_, _, _, _, _, hai⟩
-        · exact nthLoop_val X hq hz (.next_back it) k w a a' ao hrel hs'
+        · exact nthLoop_val X hq hz heq (.next_back it) k w a a' ao hrel hs'
   case count it =>
     simp only [astepAll] at hs
     simp only [stepAll]
     exact consume_val X hq hz w a a' it ao _ hrel (fun fuel => countLoop X it fuel 0 w)
       (fun fuel a2 o ys hai hrem hm hd => by
-        have := countLoop_val X hq hz it fuel 0 w a a2 o ys hrel hai hrem hm hd
+        have := countLoop_val X hq hz heq it fuel 0 w a a2 o ys hrel hai hrem hm hd
         simpa using this) hs
   case last it =>
     simp only [astepAll] at hs
     simp only [stepAll]
     exact consume_val X hq hz w a a' it ao _ hrel (fun fuel => lastLoop X it fuel none w)
       (fun fuel a2 o ys hai hrem hm hd => by
-        have := lastLoop_val X hq hz it fuel none w a a2 o ys hrel hai hrem hm hd
+        have := lastLoop_val X hq hz heq it fuel none w a a2 o ys hrel hai hrem hm hd
         cases hgl : ys.getLast? <;> simpa [hgl] using this) hs
   case clone_from_iter it src => simp [astepAll] at hs
-  all_goals exact C10_world_step_values X hq hz w a a' _ ao hrel hs
+  all_goals exact C10_world_step_values X hq hz heq w a a' _ ao hrel hs
 
 end stepsAll
 
@@ -2317,8 +2629,8 @@ theorem OutVal.not_stopped {o : Out} {ao : AOut} (h : OutVal o ao) : isStopped o
   cases o <;> cases ao <;> simp [OutVal, isStopped] at h ⊢
 
 section hist
-variable (X : Ctx) (hq : ∀ k, X.o.panicAt k = false) (hz : 0 < X.c.elemSize)
-include hq hz
+variable (X : Ctx) (hq : ∀ k, X.o.panicAt k = false) (hz : 0 < X.c.elemSize) (heq : ∀ k, X.o.eqScript k = none)
+include hq hz heq
 
 /-- **(C10 / C01 / C03) every history of covered operations on the register machine, with the values**: any number of
     vectors, `Drain`s and `IntoIter`s, iterators stepped / dropped / forgotten between operations on other registers,
@@ -2347,7 +2659,7 @@ theorem C10_world_values_partial (ops : List Op) (w : World) (a a' : AW) (aos : 
         rw [hra] at hs
         simp only [Option.map_some, Option.some.injEq, Prod.mk.injEq] at hs; obtain ⟨rfl, rfl⟩ := hs
         simp only [runW]
-        rcases C10_world_stepAll_values X hq hz w a a1 op ao hrel hst with ⟨ho, hrel1⟩ | ⟨p, hp, hb, _⟩
+        rcases C10_world_stepAll_values X hq hz heq w a a1 op ao hrel hst with ⟨ho, hrel1⟩ | ⟨p, hp, hb, _⟩
         · have hns := ho.not_stopped
           simp only [hns, Bool.false_eq_true, if_false]
           obtain ⟨ih1, ih2⟩ := ih (stepAll X w op).1 a1 aos2 hrel1 hra
@@ -2403,6 +2715,23 @@ example : (runA [.macro_list "a" [1, 2, 3, 4, 5, 6, 7, 8], .drain "a" (.included
     .count "d", .pop "a", .drain_filter "a" (.mod 2 1) "f", .last "f", .serialize "a", .into_iter "a" "i", .next_back "i",
     .last "i", .count "b"] (fun _ => none)).map (·.2) =
     some [.ok, .ok, .some 3, .ok, .len 4, .some 8, .ok, .some 1, .vals [2], .ok, .some 2, .none, .badOp] := by
+  decide +kernel
+
+/-- `dedup_by` compares with the last KEPT element; `dedup_by_key` calls the key function twice per comparison -/
+example : (runA [.macro_list "a" [10, 11, 20, 12, 13, 30], .dedup_by "a" (.mod 2 0), .serialize "a",
+    .macro_list "b" [1, 3, 5, 2, 4, 7], .dedup_by_key "b" (.kmod 2), .serialize "b"] (fun _ => none)).map (·.2) =
+    some [.ok, .ok, .vals [10, 11, 20, 13, 30], .ok, .ok, .vals [1, 2, 7]] := by
+  decide +kernel
+
+example : (runA [.macro_list "a" [1, 1, 2, 2, 1, 3, 3], .dedup "a", .serialize "a", .remove_item "a" 1, .remove_item "a" 9,
+    .serialize "a"] (fun _ => none)).map (·.2) =
+    some [.ok, .ok, .vals [1, 2, 1, 3], .some 1, .none, .vals [2, 1, 3]] := by
+  decide +kernel
+
+/-- comparisons are those of the exposed value sequences, whatever the storage history -/
+example : (runA [.macro_list "a" [1, 2, 3], .with_capacity "b" 9, .push "b" 1, .push "b" 2, .compare "a" "b", .push "b" 3,
+    .compare "a" "b", .push "b" 0, .compare "b" "a", .compare "a" "x"] (fun _ => none)).map (·.2) =
+    some [.ok, .ok, .ok, .ok, .cmp false .gt, .ok, .cmp true .eq, .ok, .cmp false .gt, .badOp] := by
   decide +kernel
 
 end MV.Props
